@@ -326,6 +326,13 @@ func ntlmv1All() {
 			i++
 		}
 	}
+	// secrets that look like something else (hash spellings, quoting, whitespace) are passwords
+	for si, pw := range gen.ShapedSecrets() {
+		for ci := 0; ci < 2; ci++ {
+			sc := fixedChallenges[(si+ci)%len(fixedChallenges)]
+			ntlmv1Case(pw, true, ref.NTHash(pw), sc, 0, callOrders[(si+ci)%len(callOrders)], fmt.Sprintf("v1|shaped|%d|%d", si, ci))
+		}
+	}
 	for _, fill := range []byte{0x00, 0xFF, 0x01, 0x80, 0xFE} {
 		var nt [16]byte
 		for j := range nt {
@@ -523,6 +530,19 @@ func ntlmv2All() {
 			i++
 		}
 	}
+	// qualified-looking user names, odd domains and hash-looking passwords are taken literally
+	shapedPw := append(append([]string{}, gen.ShapedSecrets()...), fixedPasswords...)
+	for _, u := range append(gen.ShapedUsers(), "user", "") {
+		for _, d := range gen.ShapedDomains() {
+			ntlmv2Case(u, d, shapedPw[i%len(shapedPw)], ch[i%len(ch)], ch[(i/3+1)%len(ch)], "shaped", "shaped")
+			i++
+		}
+	}
+	for _, pw := range gen.ShapedSecrets() {
+		ntlmv2Case("User", "Domain", pw, ch[i%len(ch)], ch[(i/3+1)%len(ch)], "shaped", "shaped")
+		ntlmv2Case("CORP\\alice", "", pw, ch[i%len(ch)], ch[(i/3+1)%len(ch)], "shaped", "shaped")
+		i++
+	}
 	n := r.Pick(40000, 1000000)
 	for t := 0; t < n; t++ {
 		us, ds := rng.IntN(len(scripts)+1)-1, rng.IntN(len(scripts)+1)-1
@@ -650,6 +670,38 @@ func authAll() {
 					}
 					i++
 				}
+			}
+		}
+	}
+	shapedPw := append(append([]string{}, gen.ShapedSecrets()...), fixedPasswords...)
+	for _, ess := range []bool{false, true} {
+		for _, uni := range []bool{true, false} {
+			flags := base | fTargetInfo
+			if ess {
+				flags |= fESS
+			}
+			if uni {
+				flags |= fUnicode
+			} else {
+				flags |= fOEM
+			}
+			ti := encodeAV(tiSets[2])
+			for ui, u := range append(gen.ShapedUsers(), "user", "") {
+				for di, d := range append([]string{"", "CORP"}, gen.ShapedDomains()[1+ui%5:][:4]...) {
+					if !uni && (!isASCII7(u) || !isASCII7(d)) {
+						continue
+					}
+					var sc [8]byte
+					copy(sc[:], fixedChallenges[(i+di)%len(fixedChallenges)])
+					authCase(flags, ti, u, shapedPw[i%len(shapedPw)], d, "Workstation", sc, "shaped", "shaped")
+					i++
+				}
+			}
+			for _, pw := range gen.ShapedSecrets() {
+				var sc [8]byte
+				copy(sc[:], fixedChallenges[i%len(fixedChallenges)])
+				authCase(flags, ti, "User", pw, "Domain", "WS", sc, "shaped", "shaped")
+				i++
 			}
 		}
 	}
